@@ -119,7 +119,7 @@ def run_one(job):
         open(path, "w").write("".join(lines))
         env = dict(os.environ, PYTHONPATH=os.path.join(scratch, "src"), PYTHONDONTWRITEBYTECODE="1",
                    HIO_VERIF_SRC=os.path.join(scratch, "src"), HIO_VERIF_EVIDENCE=os.path.join(scratch, "ev"),
-                   HIO_VERIF_MAXVIOL="1", HIO_VERIF_TLC_CACHE="/tmp/tlccache", VERIF_SEED="0")
+                   HIO_VERIF_MAXVIOL="1", HIO_VERIF_TLC_CACHE="/tmp/tlccache", VERIF_SEED="0", HIO_VERIF_STALL_S="150")
         mod = rel[:-3].replace("/", ".")
         imp = subprocess.run([PY, "-W", "ignore", "-c", "import %s" % mod], env=env, capture_output=True, text=True)
         if imp.returncode:
@@ -127,7 +127,7 @@ def run_one(job):
         t = time.time()
         for p in props:
             try:
-                c = subprocess.run(["./check", p, "--tier", "quick"], cwd=V, env=env, capture_output=True, text=True, timeout=1500)
+                c = subprocess.run(["./check", p, "--tier", "quick"], cwd=V, env=env, capture_output=True, text=True, timeout=900)
                 rc, txt = c.returncode, c.stdout
             except subprocess.TimeoutExpired:
                 rc, txt = 1, "what: timeout"
@@ -164,7 +164,8 @@ def main():
     os.makedirs("/tmp/mutcamp", exist_ok=True)
     res = []
     with concurrent.futures.ThreadPoolExecutor(max_workers=jobs) as ex:
-        for r in ex.map(run_one, todo):
+        for fut in concurrent.futures.as_completed([ex.submit(run_one, j) for j in todo]):
+            r = fut.result()
             res.append(r)
             if r["status"] != "killed":
                 print("%-8s line %d %-18s %s" % (r["status"], r["line"], r["op"], r["new"].strip()[:110]), flush=True)
